@@ -340,6 +340,9 @@ func (tc *typechecker) checkShortVariableDeclaration(node *ast.Assignment) {
 			expr := subExpr(nodeRhs[i], j == 0)
 			switch {
 			case isBlankIdentifier(node.Lhs[i]):
+				if ti.Nil() { // _, a := nil, 2
+					panic(tc.errorf(expr, "use of untyped nil"))
+				}
 				if ti.IsConstant() {
 					tc.mustBeAssignableTo(ti, expr, ti.Type, false, nil)
 					ti.setValue(nil)
